@@ -642,7 +642,7 @@ def check_C14(ctx, rep):
                   IF(teq(y, 0.0), RETV(ONE_TF), IF(s.is_sign_positive(), RETV((y * s.ln()).exp()), neg)))
     check_ref(fx, "R35", "TwoFloat::powf", powf_ref, "0^0 -> NaN; 0^y -> 0; x^0 -> 1; x>0 -> exp(y ln x); x<0: non-integer y -> NaN, else +-exp(y ln|x|) by the parity of the truncated low-order word")
     # ---- mul_pow2 structural rule on MIR (loop)
-    check_mul_pow2(fx, mp[0])
+    check_mul_pow2(fx, mp[0], curried=bool(CURRIED), ity=MP_TY)
     check_series(fx, frac)
     from .rules_c10 import check_delegation_subset
     check_delegation_subset(rep, f, {"exp", "exp2", "exp_m1", "powf"})
@@ -662,23 +662,59 @@ def check_exp_m1(fx, frac, rule="R35"):
         return IF(tcmp("lt", s, -LN2), big, IF(tcmp("gt", s, L32), big, IF(tcmp("lt", s, 0.0), RETV(s * r * s.exp()), RETV(s * r))))
     check_ref(fx, rule, "TwoFloat::exp_m1", exp_m1_ref, "outside [-dd(ln 2), dd(ln 3/2)] -> exp(x)-1; inside: x*(1+|x|*Taylor[2..15](|x|)), times exp(x) for x<0")
 
-def check_mul_pow2(fx, b):
-    rep = fx.rep
-    consts = []
-    for blk in b.mir["blocks"]:
-        for s in blk["s"]:
-            rv = s.get("rv", {})
-            for k in ("a", "b"):
-                o = rv.get(k)
-                if isinstance(o, dict) and "const" in o and (o["const"].get("val") or {}).get("k") == "scalar" and o["const"]["ty"] in vg.INT_BITS:
-                    consts.append(vg.to_signed(o["const"]["ty"], int(o["const"]["val"]["bits"], 16)))
-        # the same literals as arguments of checked_* / wrapping_* calls
-        for o in (blk["t"].get("args") or []) if blk["t"]["k"] == "call" else []:
-            if isinstance(o, dict) and "const" in o and (o["const"].get("val") or {}).get("k") == "scalar" and o["const"].get("ty") in vg.INT_BITS:
-                consts.append(vg.to_signed(o["const"]["ty"], int(o["const"]["val"]["bits"], 16)))
-    need = {-1074, -1022, 1024, 1074, 1023, 52, 1}
-    rep.check(need <= set(consts), "R35", "mul_pow2 breakpoints", "mul-pow2-consts",
-              "the power-of-two scaling helper no longer uses the binary64 breakpoints -1074/-1022/1024 and biases 1074/1023/52: %s" % sorted(set(consts)), where=H.where(b), detail=sorted(set(consts)))
+def check_mul_pow2(fx, b, curried=False, ity="i32"):
+    """R35: the scaling helper multiplies by 2^y.  The body is evaluated with the exponent fixed to each y of a finite set (every
+    integer of -1074..=1023 in the thorough tier, the breakpoints and a grid in the quick tier) and the word symbolic: what comes
+    out has to be the word times f64 constants that are powers of two whose exponents add up to y, and a single factor (or
+    exact unit factors around it) where 2^y is representable, so that the one multiplication rounds once.  (libm's ldexp /
+    scalbn with that exponent is accepted as the same thing.)"""
+    rep = fx.rep; f = fx.f
+    if curried or b.kind == "Closure":
+        rep.ok("R35", "mul_pow2 scaling (closure form)", detail="read in the context of exp2 (the closure's exponent is exp2's k): the form rule of exp2 keeps it opaque", nontrivial=False)
+        return
+    full = range(-1074, 1024)
+    grid = sorted(set(list(range(-1080, -1015)) + list(range(-70, 70)) + list(range(960, 1030)) + list(range(-1074, 1024, 37))))
+    ys = list(full) if rep.tier == "thorough" else [y for y in grid if -1074 <= y <= 1023]
+    bad = []
+    def pow2_exp(bits):
+        e = (bits >> 52) & 0x7ff; m = bits & ((1 << 52) - 1)
+        if bits >> 63 or e == 0x7ff:
+            return None
+        if e == 0:
+            return (m.bit_length() - 1 - 1074) if m and m & (m - 1) == 0 else None
+        return e - 1023 if m == 0 else None
+    x = P(0)
+    for y in ys:
+        try:
+            ex = vg.Exec(f, vg.Policy(f, "prim"), max_nodes=40000)
+            t = ex.run_body(b, args=[None, mk("const", ity, vg.from_signed(ity, y))])
+        except (vg.Unsupported, RecursionError) as u:
+            bad.append((y, "cannot evaluate: %s" % u)); break
+        if t[0] != "leaf":
+            bad.append((y, "not a straight-line computation for a fixed exponent")); continue
+        v = t[1]; exps = []; ok = True
+        if tag(v) == "call" and v[1] in ("libm::ldexp", "libm::scalbn") and len(v) == 4 and v[2] is x and tag(v[3]) == "const":
+            if vg.to_signed(v[3][1], v[3][2]) != y:
+                bad.append((y, "ldexp with another exponent"))
+            continue
+        while v is not x:
+            if tag(v) == "f" and v[1] == "mul" and len(v) == 4 and (tag(v[2]) == "const" or tag(v[3]) == "const"):
+                c, v = (v[2], v[3]) if tag(v[2]) == "const" else (v[3], v[2])
+                e = pow2_exp(c[2])
+                if e is None:
+                    ok = False; break
+                exps.append(e)
+            else:
+                ok = False; break
+        if not ok:
+            bad.append((y, "result is not the word times power-of-two constants: %s" % vg.show(t[1])[:120])); continue
+        if sum(exps) != y:
+            bad.append((y, "factors 2^%s multiply to 2^%d" % (exps, sum(exps)))); continue
+        if len([e for e in exps if e != 0]) > 1:
+            bad.append((y, "2^%d is representable but is applied in %d steps %s (an intermediate product can round)" % (y, len(exps), exps)))
+    rep.check(not bad, "R35", "mul_pow2 scaling by 2^y", "mul-pow2-scaling",
+              "the power-of-two scaling helper is not multiplication by 2^y for y = %s: %s" % (bad[0][0] if bad else "", bad[0][1] if bad else ""), where=H.where(b),
+              detail="%d exponents in -1074..=1023 evaluated with the word symbolic: one multiplication by the constant 2^y each" % len(ys))
 
 def check_tables(fx):
     """R33: every entry of every family table is the correctly rounded double-double of g(i)"""
